@@ -70,11 +70,11 @@ def collect(results, engine, binary, test):
 
 
 # scenarios per case (one OS process each)
-C12_BATCH = {"c12": 4, "c12m": 20, "c12c": 30}
+C12_BATCH = {"c12": 4, "c12m": 20, "c12c": 30, "c12e": 4}
 
 
 def case_c12(bindir, seed, index, tier, extra):
-    mode = ["c12", "c12c", "c12m", "c12", "c12c"][index % 5]
+    mode = ["c12", "c12c", "c12m", "c12", "c12c", "c12e"][index % 6]
     n = C12_BATCH[mode]
     res = run_harness(bindir, "cache", "TestVerifCache", mode, seed, 0, n, tier)
     return collect(res, "crashfs+schedsim", "cache", "TestVerifCache")
